@@ -90,12 +90,14 @@ func planFor(tier string) plan {
 			{"empty@119", 6, "narrow"},
 			{"mid@118", 4, "base"},
 			{"matured@119", 4, "base"},
+			{"spread@119", 3, "narrow"},
 		}
 	} else {
 		p.Runs = []run{
 			{"empty@119", 4, "base"},
 			{"mid@118", 3, "base"},
 			{"matured@119", 3, "base"},
+			{"spread@119", 2, "narrow"},
 		}
 	}
 	return p
@@ -128,6 +130,20 @@ func seedDef(name string) (int64, []Op) {
 			{K: "unlockall", A: "A"},
 			{K: "tick", Dt: hour},
 		}
+	case "spread@119":
+		// thirteen locks of one denom with thirteen distinct durations (1 h, 1 h 1 min, ... 1 h 12 min; owners
+		// alternate): lockup's accumulation sum-tree has fan-out 10, so its root has split into two leaves and
+		// every later begin-unlock / extend / add updates a multi-node tree; one lock is 59 min into unlocking
+		ops := []Op{}
+		for i := int64(0); i < 13; i++ {
+			a := "A"
+			if i%2 == 1 {
+				a = "B"
+			}
+			ops = append(ops, Op{K: "lock", A: a, Denom: DenomX, Dur: hour + i*min, Amt: 100 + i})
+		}
+		ops = append(ops, Op{K: "unlock", ID: 7}, Op{K: "tick", Dt: 59 * min})
+		return 119, ops
 	}
 	panic("unknown seed " + name)
 }
